@@ -23,7 +23,7 @@ const (
 
 // lockStates computes, for every instruction of fn, the lock level certainly held on the mutex
 // field of the receiver (must-analysis; deferred unlocks keep the lock until the function ends).
-func lockStates(fn *ssa.Function, isMu func(v ssa.Value) bool) map[ssa.Instruction]int {
+func lockStates(fn *ssa.Function, isMu func(v ssa.Value) bool, entry ...int) map[ssa.Instruction]int {
 	in := map[*ssa.BasicBlock]int{}
 	const top = 99
 	for _, b := range fn.Blocks {
@@ -33,6 +33,9 @@ func lockStates(fn *ssa.Function, isMu func(v ssa.Value) bool) map[ssa.Instructi
 		return nil
 	}
 	in[fn.Blocks[0]] = lkNone
+	if len(entry) > 0 {
+		in[fn.Blocks[0]] = entry[0] // lock level every caller certainly holds (unexported helpers)
+	}
 	states := map[ssa.Instruction]int{}
 	transfer := func(b *ssa.BasicBlock, s int, record bool) int {
 		for _, ins := range b.Instrs {
@@ -278,10 +281,11 @@ func c11(r *core.Run) {
 		r.Note("%s: mutex field %s guards {%s}", tn, lt.muField, strings.Join(gs, ","))
 		r.Floor("C11.LOCK", "guarded fields of "+tn, len(gs), 2)
 		nAcc := 0
-		for _, fn := range lt.methods {
-			if fn.Parent() != nil {
-				continue // closures are analysed with their own entry state (none held): see below
-			}
+		// Unexported methods cannot be called from outside the package: the lock level at their entry is the least
+		// level held at any of their call sites on the same receiver (fixpoint over helper chains). Exported methods,
+		// and helpers whose value escapes, start with nothing held.
+		entry := map[*ssa.Function]int{}
+		muOf := func(fn *ssa.Function) (func(v ssa.Value) bool, func(v ssa.Value) bool) {
 			recv := fn.Params[0]
 			isRecvBase := func(v ssa.Value) bool {
 				return v == ssa.Value(recv) || core.Resolve(v) == ssa.Value(recv)
@@ -290,7 +294,83 @@ func c11(r *core.Run) {
 				fa, ok := v.(*ssa.FieldAddr)
 				return ok && isRecvBase(fa.X) && core.FieldName(fa.X.Type(), fa.Field) == lt.muField
 			}
-			states := lockStates(fn, isMu)
+			return isRecvBase, isMu
+		}
+		isMethod := map[*ssa.Function]bool{}
+		for _, fn := range lt.methods {
+			if fn.Parent() == nil {
+				isMethod[fn] = true
+				entry[fn] = lkNone
+			}
+		}
+		const topLevel = 99
+		for fn := range isMethod {
+			if fn.Object() != nil && !fn.Object().Exported() {
+				entry[fn] = topLevel
+			}
+		}
+		// helpers that are referenced other than as the callee of a static call on the caller's own receiver
+		for _, caller := range p.FuncsIn(strings.TrimPrefix(lt.named.Obj().Pkg().Path(), p.ModPath+"/")) {
+			core.InstrsOf(caller, func(in ssa.Instruction) {
+				var ops [12]*ssa.Value
+				for _, op := range in.Operands(ops[:0]) {
+					if f, ok := (*op).(*ssa.Function); ok && isMethod[f] && entry[f] == topLevel {
+						c := core.CallOf(in)
+						if c == nil || core.StaticCallee(c) != f {
+							entry[f] = lkNone // method value / closure binding: unknown callers
+							continue
+						}
+						if !isMethod[caller] && !(caller.Parent() != nil && isMethod[caller.Parent()]) {
+							entry[f] = lkNone // called from a package function: no receiver lock to inherit
+						}
+					}
+				}
+			})
+		}
+		for changed := true; changed; {
+			changed = false
+			for caller := range isMethod {
+				isRecvBase, isMu := muOf(caller)
+				e := entry[caller]
+				if e == topLevel {
+					e = lkW // optimistic start, lowered below
+				}
+				st := lockStates(caller, isMu, e)
+				for _, nested := range core.Nest(caller) {
+					core.InstrsOf(nested, func(in ssa.Instruction) {
+						c := core.CallOf(in)
+						if c == nil {
+							return
+						}
+						g := core.StaticCallee(c)
+						if g == nil || !isMethod[g] || g.Object() == nil || g.Object().Exported() || entry[g] == lkNone {
+							return
+						}
+						lvl := lkNone
+						if nested == caller && len(c.Args) > 0 && isRecvBase(c.Args[0]) {
+							lvl = st[in]
+						}
+						if entry[g] == topLevel || lvl < entry[g] {
+							entry[g] = lvl
+							changed = true
+						}
+					})
+				}
+			}
+		}
+		for fn, e := range entry {
+			if e == topLevel {
+				entry[fn] = lkNone // never called
+			} else if e > lkNone {
+				r.Note("%s: helper %s is entered with the %s lock held at every call site", tn, fn.Name(), map[int]string{lkR: "read", lkW: "write"}[e])
+			}
+		}
+		for _, fn := range lt.methods {
+			if fn.Parent() != nil {
+				continue // closures are analysed with their own entry state (none held): see below
+			}
+			isRecvBase, isMu := muOf(fn)
+			states := lockStates(fn, isMu, entry[fn])
 			// is this a constructor-like method? (none: constructors are package functions)
 			core.InstrsOf(fn, func(in ssa.Instruction) {
 				fa, ok := in.(*ssa.FieldAddr)
